@@ -751,8 +751,8 @@ def stream_step_oracles(run, ev, before):
         for e in before:
             o = done_now.get(e)
             if retry and not must_surface:
-                if e in done_now or not any(x == e and kind == 'GetResult' for x, _, kind in reqs_now):
-                    bad.append(('retry', f'execution {e}: after a retryable {ev[1]} it did not re-send a GetQuantumResultRequest '
+                if e in done_now or not any(x == e for x, _, kind in reqs_now):
+                    bad.append(('retry', f'execution {e}: after a retryable {ev[1]} it did not re-send a request on the new stream '
                                          f'(done={done_now.get(e)}, requests={reqs_now})'))
             elif o is None or o[0] != 'exn' or o[2] != id(exc):
                 bad.append(('surface', f'execution {e}: non-retryable {ev[1]} did not surface to the caller (got {o})'))
@@ -1083,7 +1083,8 @@ def stream_streams(ctx, mods):
         mcases.append(c)
     for c in fcases + mcases:
         nfault = sum(1 for e in c['events'] if e[0] in ('Break', 'RejectReq', 'Cancel', 'RespondCancel', 'Stop'))
-        ctx.count(c['stream'], (c['pre_progs'], c['pre_jobs'], c['fails'], c['events']), nontrivial=len(c['reqs']) >= 2 and nfault >= 1,
+        nontrivial = (len(c['faults']) >= 1) if 'faults' in c else (len(c['reqs']) >= 2 and nfault >= 1)
+        ctx.count(c['stream'], (c['pre_progs'], c['pre_jobs'], c['fails'], c['events']), nontrivial=nontrivial,
                   sample=dict(pre_programs=c['pre_progs'], pre_jobs=c['pre_jobs'], events=c['events'], requests=c['reqs'],
                               outcomes=c['dones'], cancel_rpcs=c['cancels']))
         for kind, what in c['bad']:
